@@ -237,13 +237,15 @@ func TestC09(t *testing.T) {
 		nodes = []string{"n1", "n2", "n3"}
 		horizon = 32 * time.Second
 	}
+	// a pod creation rejected by the API server (the status write of that sync still succeeds) is a bounded deviation
 	ticks := &w.Alpha{NoEDS: true, FreeTicks: []int{1, 5, 10}}
+	ticksFaults := &w.Alpha{NoEDS: true, FreeTicks: []int{1, 5, 10}, ERSFaults: []string{"reject:n1", "reject:n2"}}
 	timed := func(o scOpt) scOpt {
 		o.noFreq0 = true
 		o.eds = append(o.eds, w.WithFrequency(10*time.Second), w.WithRolling("1", "1", 250, 10*time.Second))
 		return o
 	}
-	s1 := timed(scOpt{name: "S1-timed-first-deployment", nodes: nodes, raw: true, alpha: ticks,
+	s1 := timed(scOpt{name: "S1-timed-first-deployment", nodes: nodes, raw: true, alpha: ticksFaults, budget: 1,
 		first: []w.Event{ev("R_eds", edsKey), ev("R_eds", edsKey), ev("R_eds", edsKey)}})
 	s2 := timed(scOpt{name: "S2-timed-rolling-update", nodes: nodes, alpha: ticks,
 		first: []w.Event{evb("setTemplate", edsKey, "B"), ev("R_eds", edsKey), ev("R_eds", edsKey)}})
